@@ -21,6 +21,16 @@ CLAIMED = {
             "session results always come from collectLeftovers; leftovers reach the leftover callback before OnFinished; I/O errors abort the connection. Interleavings themselves are not explored.", "§4 C02"),
 }
 
+CLAIMED.update({
+    "C03": ("static exactly-once path enumeration with return-correlated summaries, who-may-send/receive, result-use and dominance rules over SSA",
+            "On every path: Accept counts a chunk in once and resolves it once (enqueued or dropped) and reaches no blocking operation; Load/Unload failures reach the dropped accounting; the quota test dominates the write and "
+            "saved/gauge effects only follow a nil-error write; zero-length chunks are corrupt; the feeder keeps the chunk in hand exactly on abort; single producer/consumer ownership of both queues; sorted and filtered recovery scan; "
+            "capacities and spill threshold share their parameters; every resolution callback balances the pending gauge. Byte equality and the numeric size bound are not decided.", "§4 C03"),
+    "C04": ("static result-use (byte-count) and must-precede rules over the persistence call tree",
+            "Every write/read syscall of the persistence call tree has its byte count consumed in a loop or short-count test, success is only returned after a checked close, the file is created under a temporary name that no chunk-id matcher accepts "
+            "(evaluated on the constants) and renamed only after write+close, saved-marking only after a nil-error write, zero-length and unmatched files are never forwarded. What the kernel does and fsync ordering are assumed.", "§4 C04"),
+})
+
 NOT_YET = {}
 
 NOT_APPLICABLE = {
